@@ -149,6 +149,7 @@ structure Univ (n : Node) : Prop where
   proposals : C04.ProposalsOK n
   vcs : C11.VCsOK n
   clean : LogClean n
+  ownNL : OwnPreparesNL n
 
 structure StoreLe (a b : Store) : Prop where
   pps : a.pps <+: b.pps
@@ -215,6 +216,22 @@ theorem Univ.sub {a fin : Node} (hc : a.cfg = fin.cfg) (hs : StoreLe a.store fin
     · right; rw [hc]; exact hv, nodup_map_prefix _ hs.vcs h.vcs.keys⟩
   clean := ⟨by intro m hm; rw [hc]; exact h.clean.pps m (hs.pps.subset hm), by intro m hm; rw [hc]; exact h.clean.prepares m (hs.prepares.subset hm),
     by intro m hm; rw [hc]; exact h.clean.commits m (hs.commits.subset hm), by intro m hm; rw [hc]; exact h.clean.vcs m (hs.vcs.subset hm)⟩
+  ownNL := by intro pm hpm hsig; rw [hc] at hsig ⊢; exact h.ownNL pm (hs.prepares.subset hpm) hsig
+
+/-- own PREPAREs are only ever logged for views the node does not lead (messages claiming the node's
+own id are dropped by the gate) -/
+theorem step_evN (n : Node) (e : Event) (spi : List Spi) (hg : Gate n.cfg e) : Evolves OwnNL n (step n e spi).1 := by
+  cases e with
+  | start c => exact startTerm_evN { n := n, spi := spi } c
+  | election h v => exact election_evN { n := n, spi := spi } h v
+  | cancelOlder h v => exact ev_other rfl rfl
+  | deliver m =>
+    cases m with
+    | preprepare m => exact handlePrePrepare_evN { n := n, spi := spi } m hg.2.2.1
+    | prepare m => exact handlePrepare_evN { n := n, spi := spi } m hg.2.2.1
+    | commit m => exact handleCommit_evN { n := n, spi := spi } m
+    | viewChange m => exact handleViewChange_evN { n := n, spi := spi } m
+    | newView m => exact handleNewView_evN { n := n, spi := spi } m hg.2.2.1
 
 theorem blk_storeLe {e : Event} {spi0 : List Spi} {a b : Node} {l : List Out} {g : List LEv} (h : Blk e spi0 a b l g) : StoreLe a.store b.store := by
   cases h with
